@@ -520,6 +520,28 @@ example : (CodeRef.mk none (some "/m/t.py".toList)).code
     (applyWrites [("/m/t.py".toList, "v1".toList)] [("/m/t.py".toList, "v2".toList), ("/m/u.py".toList, "x".toList)]) =
     some "v2".toList := by decide
 
+/-- the removal of the stale bytecode in `_compile_module_file` sits after the `if module_writer: … else: …` branch,
+i.e. on the path common to the default writer and to a custom `module_writer` (regenerated from the AST) -/
+theorem bytecode_dropped_after_both_writers : Generated.ModFile.dropsBytecode = true := by decide
+
+/-- **After a module file is regenerated in place, the regenerated module is the one that executes** – with either
+writer, whatever bytecode was cached before, and even when the new file has the same whole-second mtime and the same
+size as the old one (the case in which the import system would trust the old bytecode). -/
+theorem regenerated_module_executes (m : ModFile) (src : Str) (stamp : Nat × Nat) :
+    (m.regenerate Generated.ModFile.dropsBytecode src stamp).executes = src ∧
+    ((m.regenerate Generated.ModFile.dropsBytecode src stamp).imported).executes = src := by
+  have h := bytecode_dropped_after_both_writers
+  simp [ModFile.regenerate, ModFile.executes, ModFile.imported, h]
+
+/-- why the removal is needed (documentation): without it, a regeneration that keeps the stamp runs the OLD module -/
+theorem regenerated_module_stale_bytecode_counterexample :
+    let m : ModFile := (ModFile.mk "module of A".toList (7, 100) none).imported
+    (m.regenerate false "module of B".toList (7, 100)).executes = "module of A".toList ∧
+    (m.regenerate false "module of B".toList (7, 100)).src = "module of B".toList := by decide
+
+example : ((ModFile.mk "module of A".toList (7, 100) none).imported.regenerate Generated.ModFile.dropsBytecode
+    "module of B".toList (7, 100)).executes = "module of B".toList := by decide
+
 /-! ## `get_def(name).render(**kw)` -/
 
 /-- **`_kwargs_for_callable`**: a callable with `**kw` receives all the data; otherwise it receives exactly the
